@@ -44,6 +44,12 @@ CHECKS = {
         text='All interleavings of launches (fg/bg, 1..3 processes, non-ascending pids), stop/continue/exit/kill events delivered to a foreground wait or to the prompt poll, and fg/bg/jobs/empty-line actions are explored on the real Shell job table, wait_fg_job, try_wait_bg_jobs and handle_sigchld with waitpid answered by a kernel model, in the polling and in the SIGCHLD-handler configuration and with 0/1 deviations inside the non-blocking drain loop; quick completes event budget 3 with <= 4 processes (about 70 k states, 2.3 M transitions), thorough goes on to larger budgets with <= 6 processes. Oracles: smallest-unused unique job ids, wait returns exactly when every process of the job is reported dead or stopped with the last process status, the job list after `jobs` equals the live jobs with the right Stopped/Running state.',
         note='Kernel model validated against the real kernel for prompt-level traces (69+ traces); fg/bg glue is mirrored, not executed (needs a terminal; see C07); the completed event bound is reported in the evidence.',
         ref='DESIGN.md §4 C06, appendix B'),
+    'C08': dict(
+        engine='E2 explicit histories of command templates + E4 fault enumeration (RLIMIT_NOFILE), real binary',
+        technique='exhaustive enumeration of all sequences of command templates up to a depth with the shell descriptor table observed after every step, plus exhaustive fault enumeration of every RLIMIT_NOFILE value x pipeline template on the real binary',
+        text='All sequences of up to 2 (thorough 3) of 41 command templates (pipelines, every redirection form on externals and builtins, builtins alone and in pipelines, substitutions of externals / builtins / pipelines, here-strings, failing, not-found and unopenable-target commands, a background job, source, arithmetic, history) run in one real shell with a probe after every command: the shell descriptor table (read from /proc by a helper the shell starts) must stay equal to the initial one and every started program must have exactly descriptors 0,1,2. Every soft RLIMIT_NOFILE value 4..40 x 13 pipeline templates (1..6 stages, with capture, with here-string): clean non-zero failure when pipe creation fails, no hang, descriptor table unchanged, next command works.',
+        note='-c mode (no history database / line editor descriptors); limits below 4 cannot be probed; for capture templates the failing pipeline is the inner one, so the line status is not required to be non-zero.',
+        ref='DESIGN.md §4 C08'),
     'C10': dict(
         engine='E1 bounded-exhaustive input sweep (in-process plan) + real binary',
         technique='bounded-exhaustive enumeration of all words built from reference/literal segments x quote forms x variable environments, planned by the real code against a reference single-pass expander; watchdog for non-termination; conformance replay through the real binary',
